@@ -103,6 +103,10 @@ D = {
  'C04-fallback-guard-scope': ('C04', 'a guard that clears the fallback lives in the Vacant arm and drops before the publication', 'a delivery between the guard\'s drop and the pointer swap: previous handler called 0 times'),
  'C11-has-signals-reads-chunks': ('C11', 'has_signals reads 64 bytes at a time and reads again after a full buffer', '63 undrained deliveries and close() before the read: the close byte fills the buffer, the second read blocks'),
  'C11-consulted-means-pending': ('C11', 'poll_pending returns None when closed after the callback said true; poll_signal answers Pending whenever the callback was consulted', 'close() between the two checks with the callback answering "available"'),
+ 'C08-dequeue-stale-head-r3': ('C08', 'dequeue reads head and emptiness once before its CAS loop (independent rediscovery, round 3)', 'a second dequeue on the same queue between the load and the CAS (send nested in send)'),
+ 'C08-set-ors-enqueue-rescans-late': ('C08', 'set() ORs the value in; enqueue re-scans for a free position only if the head entry changed', 'a send nested between another send\'s load and CAS on a non-empty full queue: two indices merged (3|4 = 7), index out of bounds'),
+ 'C18-reader-moves-guard-stays': ('C18', 'read() moves to the filling slot after a generation change but the guard keeps pointing at the old slot', 'a generation switch inside a three-instruction window of a delivery: one slot at -1, the other at +1 forever; the next store() spins'),
+ 'C18-lock-order-inversion': ('C18', 'register takes race_fallback before data and resets it afterwards; unregister clears a present fallback under data', 'a failed first registration (register_signal_unchecked(SIGKILL)) arms the fallback; then unregister overlapping register: AB/BA deadlock'),
  'C18-unregister-read-then-write': ('C18', 'unregister looks the id up under a read guard that is still held while write() blocks', 'two mutators: one holds the mutex before its barrier\'s first check, the other\'s unregister has incremented a reader slot and blocks on the mutex'),
 }
 for name, (prop, change, needs) in D.items():
